@@ -4,4 +4,9 @@ import "fmt"
 
 func replayFile(path string) int   { fmt.Println("replay not implemented yet:", path); return 2 }
 func selftest(args []string) int   { fmt.Println("selftest not implemented yet"); return 0 }
-func workerMain(args []string) int { return 2 }
+func workerMain(args []string) int {
+	if len(args) > 0 && args[0] == "c18" {
+		return c18Worker(args[1:])
+	}
+	return 2
+}
